@@ -890,11 +890,13 @@ theorem decRun_shape (S : List Nat) (t : Tick) (e : Env) (w : Store) (i : Nat) (
       split at h
       · simp only [pure, Except.pure, Except.ok.injEq, Prod.mk.injEq] at h
         obtain ⟨rfl, _, rfl⟩ := h
-        have hK : OnlyTerm (if cc.1.status = .running then stopInv cc.1 else (cc.1, [])).2 := by
+        have hK : OnlyTerm (if (decUpdate e k0 c1.status).2.1 = .invalid ∨ cc.1.status = .running
+            then stopInv cc.1 else (cc.1, [])).2 := by
           split
           · exact stopInv_onlyTerm cc.1
           · exact OnlyTerm.nil
-        generalize (if cc.1.status = .running then stopInv cc.1 else (cc.1, [])) = rr at hK
+        generalize (if (decUpdate e k0 c1.status).2.1 = .invalid ∨ cc.1.status = .running
+            then stopInv cc.1 else (cc.1, [])) = rr at hK
         exact shape_mk i S _ _ (trc ++ cc.2 ++ rr.2) rfl (by simp [Node.status])
           (Inner.append (Inner.append hc1 (Inner.of_quiet S hC.quiet)) (Inner.of_quiet S hK.quiet))
       · simp only [pure, Except.pure, Except.ok.injEq, Prod.mk.injEq] at h
@@ -1459,11 +1461,13 @@ theorem decRun_post (t : Tick) (e : Env) (w : Store) (i : Nat) (k : DecKind) (st
       split at h
       · simp only [pure, Except.pure, Except.ok.injEq, Prod.mk.injEq] at h
         obtain ⟨rfl, _, rfl⟩ := h
-        have hK : OnlyTerm (if cc.1.status = .running then stopInv cc.1 else (cc.1, [])).2 := by
+        have hK : OnlyTerm (if (decUpdate e k0 c1.status).2.1 = .invalid ∨ cc.1.status = .running
+            then stopInv cc.1 else (cc.1, [])).2 := by
           split
           · exact stopInv_onlyTerm cc.1
           · exact OnlyTerm.nil
-        generalize (if cc.1.status = .running then stopInv cc.1 else (cc.1, [])) = rr at hK
+        generalize (if (decUpdate e k0 c1.status).2.1 = .invalid ∨ cc.1.status = .running
+            then stopInv cc.1 else (cc.1, [])) = rr at hK
         simp only [yields_append, hC.quiet.yields_nil, hK.quiet.yields_nil, yields_enter, yields_yld, List.nil_append,
           List.append_nil]
         exact List.Sublist.append hc1 (List.Sublist.refl _)
